@@ -6,6 +6,11 @@ ALL = "IO II IF IU UO UU UF UI LO LL LF LQ QO QQ QF QL OO OI OU OL OQ fs".split(
 def run(ctx):
     fams = QUICK if ctx.tier == "quick" else ALL
     ctx.cvc(fams, ["T-PIN"])
+    from props import _generic as g
+    from lib import replay
+    leaf = [t for t in g.py_targets("C01") if t.split(".")[0] in ("Bucket", "Set", "_BucketBase")]
+    res = ctx.pyvc(leaf, mode="evict")
+    replay.replay_python(ctx, res)
     ctx.standin("evict_rt", families=("OO", "II") if ctx.tier == "quick" else ("OO", "II", "LF", "QQ", "fs"))
     return "proof", (
         "T-PIN: for every function definition of the translation units (%s), on every exit, "
@@ -13,5 +18,8 @@ def run(ctx):
         "field written by the PER_USE/PER_UNUSE expansions (clang AST of the preprocessed TU, "
         "state merging at joins, loops cut at an inferred invariant, callees by the same contract). "
         "This is the third sentence of the property (nothing stays pinned, also on failing calls). "
+        "Python leaf layer, evict mode of Engine P: the search may turn the unchanged node into a ghost and reload it "
+        "into new list objects; every leaf function still meets its whole-view contract (it re-reads its lists after "
+        "the search). "
         "Transparent reload and protection during comparisons are exercised by the bounded stand-in "
         "evict_rt (cache sweeps between operations and inside key comparisons)." % ", ".join(fams))
